@@ -62,6 +62,9 @@ func runGrammar(res *core.Result, d caseData, verbose bool) {
 			}
 			exprs = append(exprs, txt)
 			feats = orFeatures(feats, f)
+			if sparseIn(exp, op) {
+				feats.Sparse = true
+			}
 			if ref.ApplySet(exp, op) {
 				conflict = true
 				break
@@ -140,7 +143,9 @@ func runGrammar(res *core.Result, d caseData, verbose bool) {
 			var n int64
 			ref.Diff(exp, gc, "", &diffs, &n)
 			where := "null handling"
-			if len(diffs) > 0 {
+			if top, ok := emptyTailOp(fam, ops); ok && len(diffs) > 0 && (diffs[0].Path == top || strings.HasPrefix(diffs[0].Path, top+".") || strings.HasPrefix(diffs[0].Path, top+"[")) {
+				res.Add("set-changes-exactly-its-path", emptyTailClass, "%s | %s | expected %s observed %s", diffs[0], input(), ref.J(exp), ref.J(gc))
+			} else if len(diffs) > 0 {
 				where = diffs[0].String()
 				named := false
 				for _, op := range ops {
@@ -166,6 +171,38 @@ func runGrammar(res *core.Result, d caseData, verbose bool) {
 		}
 	}
 	res.Sample = sample
+}
+
+// sparseIn reports whether op indexes beyond the end of an existing (or new) list.
+func sparseIn(root map[string]any, op ref.SetOp) bool {
+	var node any = root
+	for _, sg := range op.Path {
+		switch t := node.(type) {
+		case map[string]any:
+			if sg.IsIdx {
+				return false
+			}
+			node = t[sg.Key]
+		case []any:
+			if !sg.IsIdx {
+				return false
+			}
+			if sg.Idx > len(t) {
+				return true
+			}
+			if sg.Idx == len(t) {
+				node = nil
+			} else {
+				node = t[sg.Idx]
+			}
+		default:
+			if sg.IsIdx && sg.Idx > 0 {
+				return true
+			}
+			node = nil
+		}
+	}
+	return false
 }
 
 func orFeatures(a, b ref.Features) ref.Features {
